@@ -5,7 +5,10 @@ package lua
 // Verification hooks (build tag `verif`): read-only accessors and thin wrappers around
 // unexported structures, used by the /verif correspondence harness.  Not compiled without the tag.
 
-import "fmt"
+import (
+	"fmt"
+	"reflect"
+)
 
 // VerifSnapshot is a read-only snapshot of the interpreter bookkeeping a protected call must restore.
 type VerifSnapshot struct {
@@ -514,3 +517,21 @@ func (ls *LState) VerifSetStepHook(cb func(L *LState, inst uint32, id int, phase
 		}
 	}
 }
+
+// ---- protected calls (C05) ----
+
+// VerifPanicMode reports which function ls.Panic currently is: 0 = panicWithTraceback (the default of a new
+// state), 1 = panicWithoutTraceback (installed by PCall and for coroutines), 2 = anything else (set by the host).
+func (ls *LState) VerifPanicMode() int {
+	p := reflect.ValueOf(ls.Panic).Pointer()
+	switch p {
+	case reflect.ValueOf(panicWithTraceback).Pointer():
+		return 0
+	case reflect.ValueOf(panicWithoutTraceback).Pointer():
+		return 1
+	}
+	return 2
+}
+
+// VerifIsCurrentThread reports whether ls is the thread the global state regards as running.
+func (ls *LState) VerifIsCurrentThread() bool { return ls.G.CurrentThread == ls }
